@@ -89,6 +89,9 @@ pub struct Src {
     chunk: Chunk,
     int: IntPat,
     fault: Option<Fault>,
+    /// further one-shot failures (kind Other) at these global call indices (sweeps that need more
+    /// than one transient failure; not part of `Env`)
+    pub more_faults: Vec<usize>,
     ok_reads: usize,
     pub sh: Rc<SrcShared>,
 }
@@ -105,6 +108,7 @@ impl Src {
             chunk,
             int,
             fault,
+            more_faults: vec![],
             ok_reads: 0,
             sh,
         }
@@ -118,6 +122,10 @@ impl Src {
         if a > self.sh.api_budget.get() {
             self.sh.hang.set(true);
             panic!("{}", HANG_MSG);
+        }
+        if let Some(p) = self.more_faults.iter().position(|&at| at == idx) {
+            self.more_faults.remove(p);
+            return Err(io::Error::new(io::ErrorKind::Other, "injected (second)"));
         }
         if let Some(f) = self.fault {
             if f.at == idx && self.sh.fault_fired.get().is_none() && (is_seek || f.kind != FaultKind::SeekInterrupted) {
